@@ -18,7 +18,11 @@ POLL_PATH = '/google.longrunning.Operations/GetOperation'
 
 
 def main(p):
+    global OP_NAME
     a = p.args
+    if a.get('op_name'):
+        OP_NAME = a['op_name']
+        OP_NAMES[0] = OP_NAME
     out = dict(histories=0, polls=0, failures=[], nontrivial=[], outcomes={}, samples=[])
     try:
         lib = probelib.Lib(a['package'])
@@ -222,7 +226,9 @@ def main(p):
                 polls = []
                 for e in seam.log[1:]:
                     u = urllib.parse.urlsplit(e['url'])
-                    polls.append((e['verb'] == 'GET' and ('/operations/' in u.path), u.path[len('/v1/'):]))
+                    pre = a.get('poll_prefix', '/v1/')
+                    polls.append((e['verb'] == 'GET' and u.path.startswith(pre) and ('/operations/' in u.path or u.path.startswith(pre + 'operations')),
+                                  u.path[len(pre):] if u.path.startswith(pre) else u.path))
                 judge(cell, hist, ops, polls, md, res, exc)
                 note(cell, hist, ops)
     return out
